@@ -161,6 +161,21 @@ def parse_expr_guarded(expression: str, symbols=None, functions=None) -> basic.B
 ExpressionType = Union[float, str, NumericArray, basic.Basic, "ExpressionBase"]
 
 
+def _abs_of_factors(arg: basic.Basic) -> basic.Basic:
+    """Return `Abs(arg)` with non-integer real powers moved out of the absolute value.
+
+    This uses the identities :math:`|a b| = |a| |b|` and :math:`|a^p| = |a|^p`, which
+    hold for all complex numbers :math:`a`, :math:`b` and real :math:`p`.
+    """
+    factors = []
+    for factor in sympy.Mul.make_args(arg):
+        if factor.is_Pow and factor.exp.is_real and not factor.exp.is_integer:
+            factors.append(sympy.Abs(factor.base) ** factor.exp)
+        else:
+            factors.append(sympy.Abs(factor))
+    return sympy.Mul(*factors)
+
+
 class ExpressionBase(metaclass=ABCMeta):
     """Abstract base class for handling expressions."""
 
@@ -209,6 +224,11 @@ class ExpressionBase(metaclass=ABCMeta):
         except TypeError:
             # work-around for sympy bug (github.com/sympy/sympy/issues/19829)
             self._sympy_expr = expression
+        else:
+            # simplification can move real powers into absolute values, |x|**p -> |x**p|.
+            # This is correct, but x**p evaluates to nan for negative real numbers when
+            # p is not an integer, so we move such powers out of the absolute value again
+            self._sympy_expr = self._sympy_expr.replace(sympy.Abs, _abs_of_factors)
         if repl is not None:
             self._sympy_expr = self._sympy_expr.subs(repl)
         self.user_funcs = {} if user_funcs is None else user_funcs
